@@ -285,16 +285,27 @@ def oracle(c, o):
                 if failed_before:
                     continue            # a failed send may be repeated: it affected only that schedule's occurrence
                 inflight = first_done is None or a["snap"] is None or a["snap"] <= first_done
-                out.append(("one-shot sent again" + (" by a poll that listed it while its first send was still in flight"
-                                                     if inflight else " by a poll after its send had completed"),
-                            {"kind": "oneshot_resent", "overlap": bool(inflight),
+                # the documented look-ahead window of a poll whose get_task_delay ran at b: T <= next boundary + 1 s (C14);
+                # computed here from the observed call instants, not from the implementation's answer
+                armed_in_window = all(T <= next_boundary(x["b"]) + US for x in earlier + [a])
+                if not inflight:
+                    how = " by a poll after its send had completed"
+                elif armed_in_window:
+                    how = " by a poll that listed it while its first send was still in flight"
+                else:
+                    how = (" and one of the polls armed it outside the look-ahead window (T later than the minute boundary "
+                           "after that poll + 1 s)")
+                out.append(("one-shot sent again" + how,
+                            {"kind": "oneshot_resent", "overlap": bool(inflight), "armed_in_window": bool(armed_in_window),
                              "poll_at_or_before_first_fire": polls[a["poll"]]["calls"][i] <= atts[0]["fire"]}))
     return out
 
 
 def sig_d7(f):
     s = f.get("sig") or {}
-    return s.get("kind") == "oneshot_resent" and s.get("overlap") is True
+    # D7 is the double send inherent to the documented look-ahead window: the second poll listed the one-shot while the
+    # first send was still in flight AND every poll involved armed it inside its window (T <= next boundary + 1 s)
+    return s.get("kind") == "oneshot_resent" and s.get("overlap") is True and s.get("armed_in_window") is True
 
 
 SIGNATURES = {"oneshot_resent_by_overlapping_poll": sig_d7}
@@ -404,7 +415,8 @@ def explore(ctx, rep, cases, label):
                     rep.count("delay:" + ("ValueError" if d == "ValueError" else "None" if d is None else "0" if d == 0 else ">0"))
         bad = oracle(c, o)
         for what, sig in bad:
-            rep.count("oracle:" + sig.get("kind", "other") + (":inflight" if sig.get("overlap") else ""))
+            rep.count("oracle:" + sig.get("kind", "other") + (":inflight" if sig.get("overlap") else "") +
+                      (":outside-window" if sig.get("armed_in_window") is False else ""))
         seen = set()
         for what, sig in bad:
             if what not in seen:
